@@ -24,7 +24,8 @@ stray handshakes, data packets without token), all rx byte-gap profiles, tx_read
 The consumer side (`stream.ready`) runs phase profiles: always, random p, bursty, trickle (1 beat every k cycles),
 blocked for whole transactions, and directed ones: blocked until the buffer holds data and released k cycles into
 the reception of the next data packet / around its end / only after the handshake (overflow at the first byte, in
-the middle, at the last byte, exact fit).
+the middle, at the last byte, exact fit); with the consumer blocked the packet length is also chosen so that
+the FIFO runs full exactly at the last byte (one byte too many) or fits exactly.
 
 Monitors: UTMI transmit capture of the host model (the handshakes really put on the wire) and a per-cycle
 monitor of stream valid/ready/payload/first/last (a beat is valid & ready).
@@ -68,7 +69,7 @@ REQUIRED_BINS = ["fs12", "fs60", "hs", "mps_8", "mps_16", "mps_64", "buffer_defa
                  "len_0", "len_1", "len_mps", "len_mps_minus_1", "ack_new", "nak_new", "ack_repeat", "corrupt_no_handshake",
                  "truncated", "retry_after_corrupt", "retry_after_nak", "lost_ack_retransmit", "ping_ack", "ping_nak",
                  "foreign_traffic", "foreign_mid_transfer", "zlp_ends_transfer", "multi_packet_transfer",
-                 "overflow_possible", "exact_fit", "release_mid_packet", "consumer_blocked", "stream_first", "stream_last",
+                 "overflow_possible", "exact_fit", "overflow_at_last_byte", "release_mid_packet", "consumer_blocked", "stream_first", "stream_last",
                  "corrupt_full_packet_at_transfer_start", "corrupt_short_packet_mid_transfer", "nak_then_delivered_later"]
 REQUIRED_EVENTS = ["out_transactions", "handshakes_seen", "stream_beats", "packets_aligned", "flags_judged", "pings", "cycles_monitored", "hs_sessions"]
 ASSUMPTIONS = ["legal host: waits for the response window before the next packet, SETUP never sent to the endpoint, tokens have good CRC5",
@@ -557,6 +558,17 @@ def run_case(rng, tier, res):
                 if not plan:
                     plan = plan_transfer()
                 n = plan.pop(0)
+                if cons["mode"] == "blocked" and directed is None and rng.random() < 0.4:
+                    # directed length: with the consumer blocked, the FIFO runs full exactly at the last byte of the
+                    # packet (one byte too many), or the packet fits exactly
+                    occ_now = occupancy()[1]
+                    over = depth + 1 - occ_now
+                    tgt = rng.choice([over, over, over - 1])
+                    if 1 <= tgt <= mps:
+                        n = tgt
+                        if n < mps:
+                            plan = []
+                        res.bin("overflow_at_last_byte" if tgt == over else "directed_exact_fit")
                 payload = new_payload(n)
                 f = rng.random()
                 fault = None
